@@ -1075,7 +1075,7 @@ class Interp:
     def _render_equal(self, fa_: list, fb_: list, a, b) -> bool:
         """Equality of two partly abstract strings (flattened pieces: literal text or an abstract piece such as the text of
         a number).  Decided when a literal mismatch, or a literal that cannot be the text of a number, settles it."""
-        xs, ys = list(fa_), list(fb_)
+        xs, ys = [t for t in fa_ if t != ""], [t for t in fb_ if t != ""]
         while xs or ys:
             if xs and ys and isinstance(xs[0], str) and isinstance(ys[0], str):
                 k = min(len(xs[0]), len(ys[0]))
@@ -1130,6 +1130,11 @@ class Interp:
                 rest = xs or ys
                 if all(isinstance(t, str) for t in rest):
                     return False   # literal text left over on one side only
+                if any(isinstance(t, tuple) and t[0] in ("opaque", "ident", "num") for t in rest):
+                    return False   # the text of a number, an identifier or a drawn symbol is never empty
+            if any(isinstance(t, tuple) and t[0] in ("opaque", "ident") for t in xs[:1] + ys[:1]):
+                # an unknown text against other text: both answers are possible
+                return self.atom(f"same-text:{xs[:2]!r}:{ys[:2]!r}")
             raise Unsupported(f"equality of partly abstract strings {a!r} and {b!r} at {self.site}")
         return True
 
@@ -1860,6 +1865,12 @@ class Interp:
         if isinstance(obj, Dct):
             if attr in _DICT_METHODS:
                 return Bound(obj, _DICT_METHODS[attr])
+        if isinstance(obj, Render):
+            flat_ = _flatten_render(obj)
+            if all(isinstance(x, str) for x in flat_):
+                obj = "".join(flat_)   # a fully concrete text: every str method applies
+            elif attr in ("lstrip", "rstrip"):
+                return Bound(obj, _StrMethod("render:" + attr))
         if isinstance(obj, (str, Render)):
             if attr in ("format", "join", "lower", "upper", "strip"):
                 return Bound(obj, _StrMethod(attr))
@@ -2661,6 +2672,13 @@ class Interp:
                 return o[lo:hi:st]
             if isinstance(o, SymStr):
                 return SymStr(o.items[lo:hi:st])
+            if isinstance(o, Render):
+                flat_ = _flatten_render(o)
+                if all(isinstance(x, str) for x in flat_):
+                    return "".join(flat_)[lo:hi:st]
+                if lo in (None, 0) and st in (None, 1) and isinstance(hi, int) and hi >= 0 and flat_ \
+                        and isinstance(flat_[0], str) and len(flat_[0]) >= hi:
+                    return flat_[0][:hi]
             raise Unsupported(f"slice of {o!r} at {self.site}")
         k = self.eval(e.slice, env) if _pre is None else _pre[1]
         if self._dunder(o, "__getitem__") is not None:
@@ -3034,6 +3052,29 @@ def _call_builtin_method(self: Interp, info, args, kwargs):
             return out
         if isinstance(obj, str) and n in ("lower", "upper", "strip"):
             return getattr(obj, n)(*[r for r in rest if isinstance(r, str)])
+        if isinstance(obj, Render) and n in ("render:lstrip", "render:rstrip"):
+            chars = rest[0] if rest else None
+            if not isinstance(chars, str) or n == "render:rstrip":
+                raise Unsupported(f"{n} with {chars!r} at {self.site}")
+            flat = list(_flatten_render(obj))
+            while flat:
+                head = flat[0]
+                if isinstance(head, str):
+                    stripped = head.lstrip(chars)
+                    if stripped:
+                        flat[0] = stripped
+                        break
+                    flat.pop(0)
+                    continue
+                if isinstance(head, tuple) and head[0] == "num" and set("0123456789.") <= set(chars) and "-" not in chars \
+                        and "e" not in chars:
+                    # the text of a number (positional notation): '-' first when negative, digits and a dot otherwise
+                    if self.sign_query(head[1], frozenset(["neg"]), f"{A.term_str(head[1])}<0"):
+                        break
+                    flat.pop(0)
+                    continue
+                raise Unsupported(f"lstrip on a partly abstract string at {self.site}")
+            return Render(tuple(flat)) if flat else ""
         if isinstance(obj, Render) and n.startswith("render:"):
             flat = _flatten_render(obj)
             arg = rest[0] if rest else None
